@@ -261,6 +261,32 @@ func runC04(c *Ctx) {
 			}
 		})
 	}
+	// every matcher call on the search paths must have been recognised as fed by gated stores
+	for _, fn := range scope {
+		pk := c.P.PkgOfFunc(fn)
+		if pk == nil || pk.PkgPath != dbPkg {
+			continue
+		}
+		for i, fc := range callsTo(fn, fuzzyFind) {
+			if fn.Name() == "GetSuggestions" {
+				continue // matches vocabulary words, produces no search results
+			}
+			data := fc.Common().Args[1]
+			filled := false
+			if refs := data.Referrers(); refs != nil {
+				for _, ref := range *refs {
+					if ia, ok := ref.(*ssa.IndexAddr); ok && ia.X == data {
+						for _, r2 := range *ia.Referrers() {
+							if _, ok := r2.(*ssa.Store); ok {
+								filled = true
+							}
+						}
+					}
+				}
+			}
+			r.Check(filled, "O-1", fmt.Sprintf("%s#matcher-data-%d-filled-here", load.FuncKey(fn), i+1), c.P.Pos(fc.Pos()), "the matcher's data slice is filled in this function (each store is checked against both gates)", "the data handed to the typo matcher is not built by gated stores in this function (it comes from "+symx.New(c.P.IsRepoFunc).Of(fn).Plain(data)+"): it cannot be established that filtered-out commands are kept away from the matcher")
+		}
+	}
 	r.Floor("O-1", "insertion sites on the search paths", nSites, 3)
 
 	// O-4
